@@ -157,7 +157,31 @@ func obligationScript(o *Obligation, goalNeg bool, prune bool) string {
 	var b strings.Builder
 	b.WriteString(o.Decls.scriptDecls(func(n string) bool { return used[n] }))
 	if used["idx"] {
-		b.WriteString(idxDecl)
+		quantified := false
+		for _, t := range terms {
+			if strings.Contains(t, "(forall ") || strings.Contains(t, "(exists ") {
+				quantified = true
+				break
+			}
+		}
+		for i, d := range defs {
+			if incl[i] && (strings.Contains(d, "(forall ") || strings.Contains(d, "(exists ")) {
+				quantified = true
+			}
+		}
+		if quantified {
+			b.WriteString(idxDecl)
+		} else {
+			// quantifier-free query: the address function is defined at exactly the ground terms that
+			// occur, which keeps the query decidable (real models for failing obligations)
+			b.WriteString("(declare-fun idx (Int Int) Int)\n")
+			for _, g := range groundIdxTerms(terms) {
+				parts := splitTop(g[1 : len(g)-1])
+				if len(parts) == 3 {
+					b.WriteString("(assert (= " + g + " (+ " + parts[1] + " " + parts[2] + ")))\n")
+				}
+			}
+		}
 	}
 	for i, d := range defs {
 		if incl[i] {
@@ -393,6 +417,36 @@ func summarize(obs []*Obligation) []*obSummary {
 	var out []*obSummary
 	for _, n := range order {
 		out = append(out, m[n])
+	}
+	return out
+}
+
+// groundIdxTerms returns the distinct (idx a b) subterms of the given terms.
+func groundIdxTerms(terms []string) []string {
+	seen := map[string]bool{}
+	var out []string
+	for _, t := range terms {
+		for i := 0; i+5 <= len(t); i++ {
+			if t[i:i+5] != "(idx " {
+				continue
+			}
+			depth := 0
+			for j := i; j < len(t); j++ {
+				if t[j] == '(' {
+					depth++
+				} else if t[j] == ')' {
+					depth--
+					if depth == 0 {
+						g := t[i : j+1]
+						if !seen[g] {
+							seen[g] = true
+							out = append(out, g)
+						}
+						break
+					}
+				}
+			}
+		}
 	}
 	return out
 }
